@@ -135,7 +135,11 @@ def classify(mod, rec):
         r = pyor(rec["case"], impl, model)
         if r is not None:
             oracle = {"ok": r[0], "why": r[1]}
-    eq = C.same(model, impl)
+    nr = getattr(mod, "normalize_result", None)
+    if nr is not None:
+        eq = C.same(nr(rec["case"], model), nr(rec["case"], impl))
+    else:
+        eq = C.same(model, impl)
     if oracle is not None and not oracle.get("ok", True):
         return "violation", oracle.get("why", "oracle failed")
     if eq:
